@@ -13,7 +13,7 @@ from pyabv.gen import corpus
 from pyabv.gen import trivia as T
 from pyabv.gen.programs import Profile, ProgGen
 from pyabv.impl import ChoiceProbe, impl
-from pyabv.props.common import Inferred, choose_inputs, ref_parse
+from pyabv.props.common import POISON_TEXTS, Inferred, choose_inputs, poison, ref_parse
 
 RULE = (
     "cases = (token sequence, trivia placement) variants: exhaustive per gap x trivia kind (27 kinds: spaces, tabs, "
@@ -187,6 +187,11 @@ def run(ctx):
         for v in range(nvar):
             gaps, used = T.random_gaps(rnd, len(slices), density=rnd.choice([0.15, 0.5, 0.9]))
             text = T.join(slices, gaps)
+            if i % 3 == 0 and v % 2 == 0:
+                # a rejected text (e.g. one ending inside a comment) compiled in between must not matter
+                poison(im, rnd.choice(POISON_TEXTS))
+                check_variant(ctx, im, base, text, used, "random-after-rejected-text")
+                continue
             check_variant(ctx, im, base, text, used, "random")
         # the original rendering (its own whitespace layout) is a variant too
         check_variant(ctx, im, base, gp.text, [], "random")
